@@ -333,7 +333,7 @@ class CorrBatch:
                 rel = f'chk/cases_{name}_{k // per_file}.v'
                 ctx.write(rel, txt)
                 files.append((name, rel, k, len(chunk)))
-        res = ctx.coqc_many([f for _, f, _, _ in files], timeout)
+        res = ctx.coqc_many([f for _, f, _, _ in files], timeout, jobs=4)
         for name, imports, fname, eqb, cases, nontrivial, defs, per_file in self.jobs:
             bad, broke = [], False
             for nm, rel, k, n in files:
@@ -1281,7 +1281,7 @@ def _refute_in_coq(ctx, name, imports, stmt, proof, pending):
 
 
 def _run_refutations(ctx, pending):
-    res = ctx.coqc_many([rel for _, rel in pending], 120) if pending else {}
+    res = ctx.coqc_many([rel for _, rel in pending], 120, jobs=4) if pending else {}
     for name, rel in pending:
         okc, out, err, secs = res[rel]
         ctx.obligations.append({'name': f'{rel}:{name}_refuted', 'kind': 'refutation-witness', 'ok': okc})
